@@ -41,6 +41,15 @@ fn check_render(text: &str, what: &str, e: &Error<Rule>, l: usize, c: usize, pos
     if rows.len() < 6 { return Err(format!("{}: rendering of {:?} has {} rows", what, text, rows.len())); }
     if !rows[0].trim_start().starts_with(&format!("--> {}:{}", l, c)) { return Err(format!("{}: rendering shows {:?}, expected line {} column {}", what, rows[0], l, c)); }
     if !rows[2].trim_start().starts_with(&format!("{} | ", l)) { return Err(format!("{}: rendered source row {:?} does not carry line number {}", what, rows[2], l)); }
+    // the gutter: the `|` bars of the frame, the source row(s) and the marker row stand in one column, and the `=` of the message row too
+    // (checked on the six-row form only - position errors and single-line spans; a multi-line span shows its last line raw
+    // when whitespace is being visualised, line break included, which splits that row: an upstream quirk outside the property's clauses)
+    let bar = |row: &str| row.chars().position(|ch| ch == '|');
+    let col = bar(rows[1]);
+    for (k, row) in rows.iter().enumerate().skip(1).take(if rows.len() == 6 { 6 } else { 0 }) {
+        let here = if row.trim_start().starts_with('=') { row.chars().position(|ch| ch == '=') } else { bar(row) };
+        if here != col { return Err(format!("{}: the gutter is not aligned: row {} {:?} has its bar at {:?}, row 1 {:?} at {:?}", what, k, row, here, rows[1], col)); }
+    }
     if pos_marker {
         let u = rows[3].splitn(2, "| ").nth(1).unwrap_or("");
         let caret = u.chars().position(|ch| ch == '^');
@@ -150,5 +159,30 @@ fn main() {
         n += 1;
         if let Err(e) = guarded(&t) { println!("WITNESS {{\"text\":\"{}\",\"what\":\"{}\"}}", esc(&t), esc(&e)); return; }
     }
-    println!("NO-WITNESS {} texts of up to {} characters over {{a,\\n,\\r,é,€,\\t}}: positions, spans (incl. Span::get for every range shape), pairs (builder, into_inner, flatten, parse) and errors agree with the definition at every offset and offset pair", n, maxlen);
+    // long texts: line numbers with 1, 2, 3 and 4 digits (the gutter width follows the widest line number shown)
+    for lines in [8usize, 9, 10, 11, 98, 99, 100, 101, 109, 110, 998, 999, 1000, 1001] {
+        let t = format!("{}bé", "ab\n".repeat(lines));
+        let r = catch_unwind(AssertUnwindSafe(|| -> Result<(), String> {
+            let n = t.len();
+            for p in [n, n - 2, n - 3, n - 4, n - 6, 0usize, 3] {
+                if !t.is_char_boundary(p) { continue; }
+                let pos = Position::new(&t, p).ok_or("Position::new")?;
+                if pos.line_col() != lc(&t, p) { return Err(format!("Position::line_col at {} in a text of {} lines", p, lines + 1)); }
+                let e = Error::new_from_pos(custom(), pos);
+                let (l, c) = lc(&t, p);
+                check_render("long text", &format!("error at offset {} of a text of {} lines", p, lines + 1), &e, l, c, true)?;
+            }
+            for (a, b) in [(n - 6, n), (n - 9, n - 1), (0, n), (n - 3, n - 3)] {
+                if !(t.is_char_boundary(a) && t.is_char_boundary(b)) { continue; }
+                let sp = Span::new(&t, a, b).ok_or("Span::new")?;
+                let e = Error::new_from_span(custom(), sp);
+                let (l, c) = lc(&t, a);
+                check_render("long text", &format!("error over span {}..{} of a text of {} lines", a, b, lines + 1), &e, l, c, false)?;
+            }
+            Ok(())
+        }));
+        match r { Ok(Ok(())) => {}, Ok(Err(e)) => { println!("WITNESS {{\"text\":\"{}\",\"what\":\"{}\"}}", esc(&t), esc(&e)); return; }
+                  Err(_) => { println!("WITNESS {{\"text\":\"{}\",\"what\":\"panic on a text of {} lines\"}}", esc(&t), lines + 1); return; } }
+    }
+    println!("NO-WITNESS {} texts of up to {} characters over {{a,\\n,\\r,é,€,\\t}}: positions, spans (incl. Span::get for every range shape), pairs (builder, into_inner, flatten, parse) and errors agree with the definition at every offset and offset pair; rendered errors keep their gutter aligned, also on texts of 9 .. 1002 lines", n, maxlen);
 }
